@@ -153,6 +153,10 @@ def random_cfg(rnd, mods):
     objs = pick_unrelated(rnd, mods, rnd.randint(1, 3), avoid=subs, kind=okind)
     if not objs:
         return None
+    if rnd.random() < 0.06:
+        subs = subs + [rnd.choice(subs)]  # the same name given twice
+    if rnd.random() < 0.06:
+        objs = [rnd.choice(objs)] + objs
     return {"verb": verb, "dir": d, "exc": exc, "subs": [(skind, s) for s in subs], "objs": [(okind, o) for o in objs], "anything": False}
 
 
